@@ -33,6 +33,7 @@ def one(eid):
         H.h65_selector_cast_to_index_dtype(ctx, tk, "S/H65", fs)
         H.h66_key_dtype_as_value_dtype(ctx, tk, "S/H66", fs)
         H.h67_reshape_inferred_dimension(ctx, tk, "S/H67", fs)
+        H.h68_input_normalised_in_one_width_branch(ctx, tk, "S/H68", fs)
         from sa.rules import C14, C15, C17
         C14.encoder_keeps_element_type(ctx, tk)
         C15.mask_branch_is_bool_only(ctx, tk)
